@@ -82,6 +82,18 @@ def jobs(tier):
                     continue
                 J.append(dict(harness=H, params=dict(N=N, prog=prog, config=config, cls=cls, variant=variant), timeout_s=900, cost=30))
         J.append(dict(harness=H, params=dict(N=N, prog=prog, inp='state', r=1), timeout_s=300, cost=5))
+    # histories around compose: compose onto an empty circuit, then extend either party / compose the block again
+    for N in (2, 3):
+        for n_g in (1, 2):
+            for places in itertools.product(tuples(N, 2), repeat=n_g):
+                for extra in tuples(N, 2)[:3 if tier == 'quick' else None]:
+                    for scenario in ('extend_total', 'extend_part', 'repeat'):
+                        if scenario == 'repeat' and extra != tuples(N, 2)[0]:
+                            continue
+                        if tier == 'quick' and N == 3 and n_g == 2 and (sum(len(q) for q in places) > 3):
+                            continue
+                        J.append(dict(harness=('circuits', 'h_compose_history'), params=dict(N=N, places=[list(q) for q in places], extra=list(extra), scenario=scenario),
+                                      timeout_s=300, cost=5))
     if tier == 'thorough':
         for places in itertools.product(tuples(3), repeat=4):
             J.append(dict(harness=H, params=dict(N=3, prog=[['gen', q] for q in places])))
